@@ -31,6 +31,16 @@ def op_sid(c):
         o.update(type='', fields=[], string='', truthy=False, len=0)
     else:
         o.update(snap(sid), truthy=bool(sid), len=len(sid))
+        # a user who edits what the API handed out must not change what the same string means afterwards
+        try:
+            f = sid.fields
+            f['%evil'] = 'x'
+            for k in list(f)[:1]:
+                del f[k]
+            again = Sid(s)
+            o['again'] = dict(snap(again), truthy=bool(again), len=len(again))
+        except Exception as e:  # noqa
+            o['again'] = dict(type='%raised:' + type(e).__name__, fields=[], string='', truthy=False, len=0)
     return o
 
 
